@@ -482,7 +482,8 @@ def find(prop, quick=True, seed=0, limit=None):
         return find_c07(quick, seed)
     if prop == 'C12':
         return find_c12(quick, seed)
-    jobs = grid(prop, quick, seed)
+    # every job states its opcode range: the checks must not depend on what the library's defaults happen to be
+    jobs = [j if 'min=' in j else j + ' min=60 max=300' for j in grid(prop, quick, seed)]
     if limit and len(jobs) > limit:
         # the few hand-placed corner jobs (very long pickles, inverted ranges, long-then-again) are always kept
         special = [j for j in jobs if any(t in j for t in ('min=4000 ', 'min=8000 ', 'min=100 max=0', 'calls=seed;seed'))][:90]
